@@ -7,8 +7,11 @@ terms (E1) are extracted on every path and checked.  Every rule is decided on in
         the pending offset reads tile) before the next read
   C08.b alias-then-consume: after the input buffer was stored without copying, nothing may consume from it
   C08.c field order: the fields the reader fills, in stream order, are the fields the writer emits, in order (with their fixed widths);
+        a collection the writer emits item by item is read by an item loop (own or of the delegating class); no field read twice;
         key material integers are taken off the buffer in the declared order
-  C08.d remainder arithmetic: a trailing `header.length - k` read must leave out exactly what was consumed before it (linear forms)
+  C08.d remainder arithmetic: a trailing `header.length - k` read must leave out exactly what was consumed before it (linear forms);
+        widths never come from the size of the remaining input / another header field; item loops continue exactly while fewer
+        octets than declared are consumed (evaluated at consumed = 0, 1, L-1, L, L+1) and are not left early
   C08.e length-covers-what-follows: each length the writer emits is followed by exactly the octets it counts
   C08.f text codec symmetry: a text field is written with the codec it is read with, per reader path; a remembered fallback codec is
         the one the writer uses in that object state
@@ -77,6 +80,7 @@ def run(rep, prog, tier):
         check_reader(rep, prog, c, pf)
         check_writer_lengths(rep, prog, c, wf)
     check_field_order(rep, prog, classes)
+    check_repetition(rep, prog, classes)
     check_text_codecs(rep, prog)
     check_dispatch(rep, prog)
     check_update_hlen(rep, prog)
@@ -214,7 +218,15 @@ def check_remainder(rep, c, pf, reads, scen, construct, s=None):
                 continue
             lin = _remainder(w, length)
             if lin is None:
-                # a variable width that is not a remainder (e.g. a length read from the data): it precedes a later remainder symbolically
+                # a variable width that is not a remainder (e.g. a length read from the data): it precedes a later remainder symbolically.
+                # It must come from the data or the object, never from what happens to be left in the input or from another header field
+                buf = pf.params[1] if len(pf.params) > 1 else 'packet'
+                wrong = 'len(%s)' % buf in w or re.search(r'(?<![A-Za-z0-9_.])%s\.header\.(?!length\b)[A-Za-z_]' % re.escape(p0), w) is not None
+                if wrong:
+                    rep.violation('C08.d', construct, 'field width %s' % w,
+                                  'the width of a field is taken from the size of the remaining input / another header field instead of the declared '
+                                  'length: the reader runs past (or stops short of) the end of this packet', where='%s:%d' % (pf.module.relpath, r.line),
+                                  expected='%s minus the octets already consumed, or a length read from the data' % length, found=w, scenario=scen)
                 sym_before.append(w)
                 continue
             const, syms = lin
@@ -334,6 +346,16 @@ def check_field_order(rep, prog, classes):
             # locals used only as lengths (nlen, vlen, fnl, oidlen) have no name; duplicates of the same field collapse
             rf = _dedupe(rf)
             scen = '; '.join('%s=%s' % (f[0][:40], f[1]) for f in s.facts) or 'straight line'
+            # one field filled by more separate reads than the writer has items for it: a later read overwrites an earlier one and the
+            # octets of some other field end up in it
+            raw = [n for n, w in reader_fields(reads, rp0) if n and n != '<header>']
+            for n in sorted(set(x for ns in raw for x in ns.split('|'))):
+                nr = sum(1 for ns in raw if n in ns.split('|'))
+                nw = max(sum(1 for ns in w if n in ns.split('|')) for w in wseqs)
+                if nr > 1 and nr > nw:
+                    rep.violation('C08.c', '%s parse/__bytearray__' % c.name, 'field %s filled by %d reads, written %d time(s)' % (n, nr, nw),
+                                  'a field is read more often than it is written: the reader consumes octets of a neighbouring field into it',
+                                  where=pf.where, expected='%d read(s) of %s' % (max(nw, 1), n), found=raw, scenario=scen)
             match = any(_subseq(rf, _dedupe(w)) for w in wseqs)
             rep.check(match, 'C08.c', '%s parse/__bytearray__' % c.name, 'reader fields %s vs writer fields %s' % (rf, [_dedupe(w) for w in wseqs][:2]),
                       'the reader fills the fields in an order the writer does not emit them in: own output does not re-parse to the same values',
@@ -400,6 +422,311 @@ def check_field_order(rep, prog, classes):
         rep.check(not bad and not missing, 'C08.c', '%s.parse' % c.name, 'MPI read order %s, declared/written order %s' % (bad[0] if bad else orders[:1], decl),
                   'the integers are written in the declared field order; the reader must fill them in the same order', where=pf.where,
                   expected=decl, found=bad[0] if bad else ('never read: %s' % missing if missing else orders[:1]))
+
+
+# ------------------------------------------------------------------------------------------------ repeated items (C08.c / C08.d)
+# A writer that emits one item per element of a collection (EACH($k in coll; .. $k.__bytearray__() ..)) must be read by a LOOP that takes
+# items until the declared length is used up; the loop may live in the class itself or in the class that delegates to it.  Loops are
+# located by what they do (they contain the call that reads an item: Klass(buf) of a dispatching class, or self.f.parse(buf)) and by the
+# cycle in the statement CFG, never by their spelling.
+def _stmt_parents(fn_node):
+    par = {}
+    for n in ast.walk(fn_node):
+        for ch in ast.iter_child_nodes(n):
+            par[id(ch)] = n
+    return par
+
+
+def _enclosing_loop(fi, call_node):
+    """The innermost loop statement whose body can run the statement of `call_node` again (cycle in the CFG), or None."""
+    cache = fi.__dict__.setdefault('_c08_loops', {})
+    if id(call_node) in cache:
+        return cache[id(call_node)]
+    from sa.cfg import CFG
+    par = fi.__dict__.get('_c08_par')
+    if par is None:
+        par = fi.__dict__['_c08_par'] = _stmt_parents(fi.node)
+        fi.__dict__['_c08_cfg'] = CFG(fi.node)
+    cfg = fi.__dict__['_c08_cfg']
+    st = call_node
+    while st is not None and not isinstance(st, ast.stmt):
+        st = par.get(id(st))
+    res = None
+    if st is not None:
+        ids = [n.id for n in cfg.nodes_for(st)]
+        cyc = set()
+        for i in ids:
+            for m, _ in cfg.succ[i]:
+                cyc |= cfg.reachable(m)
+        if any(i in cyc for i in ids):
+            cur = par.get(id(st))
+            while cur is not None and res is None:
+                if isinstance(cur, (ast.While, ast.For)) and any(n.id in cyc for n in cfg.nodes_for(cur)):
+                    res = cur
+                cur = par.get(id(cur))
+    cache[id(call_node)] = res
+    return res
+
+
+def item_reads(prog, c, pf):
+    """Calls of the reader that take one self-delimiting item off a buffer: [(kind, name, buffer text, call node, enclosing loop)]."""
+    p0 = pf.params[0]
+    out, seen = [], set()
+    for s in reader_paths(prog, c, pf):
+        for ft, args, kw, line, node in s.calls:
+            if id(node) in seen or not args:
+                continue
+            kind = None
+            if ft in codec.DELEGATES and len(args) == 1 and not kw:
+                kind, name = 'ctor', ft
+            elif ft.endswith('.parse') and ft.startswith(p0 + '.') and '.' not in ft[len(p0) + 1:-len('.parse')]:
+                kind, name = 'field', ft[len(p0) + 1:-len('.parse')]
+            if kind:
+                seen.add(id(node))
+                out.append((kind, name, ast.unparse(node.args[0]) if node.args else args[0], node, _enclosing_loop(pf, node)))
+    return out
+
+
+def _field_classes(prog, c):
+    """attribute -> class of the sub-object the constructors of `c` put there."""
+    out = {}
+    for k in c.mro():
+        f = k.methods.get('__init__')
+        if f is None or not f.params:
+            continue
+        p0 = f.params[0]
+        for s in Interp(prog, Scenario(inline=noinline, self_cls=c)).run(f):
+            for pth, vt, line, val in s.stores:
+                if pth.startswith(p0 + '.') and '.' not in pth[len(p0) + 1:] and getattr(val, 'cls', None) is not None and hasattr(val, 'name'):
+                    out.setdefault(pth[len(p0) + 1:], val.cls)
+    return out
+
+
+def _writer_repeats(prog, c, wf):
+    """(collections whose elements are emitted as one serialised item each, attributes whose own serialisation is emitted once)."""
+    p0 = wf.params[0]
+    many, fields = set(), set()
+    for s, items in codec.writer_items(prog, wf, Scenario(self_cls=c)):
+        if items is None:
+            continue
+        text = render_items(items)
+        for m in re.finditer(r'EACH\(((?:\$[\d._]+)|\([^)]*\)) in ([^;]*);', text):
+            for v in re.findall(r'\$[\d._]+', m.group(1)):
+                if re.search(re.escape(v) + r'(?!\d)(?!\.\d)(?!_\d)\.(__bytearray__|__bytes__)\(\)', text[m.end():]) or \
+                        re.search(r'(bytes|bytearray)\(' + re.escape(v) + r'\)', text[m.end():]):
+                    many.add(m.group(2))       # the collection whose elements are serialised one by one
+        for m in re.finditer(r'(?<![A-Za-z0-9_.$])%s\.([A-Za-z_][A-Za-z0-9_]*)\.(__bytearray__|__bytes__)\(\)' % re.escape(p0), text):
+            fields.add(m.group(1))
+    return many, fields
+
+
+class _NoEval(Exception):
+    pass
+
+
+def _stmt_order(fi):
+    """Position of every statement of the (canonical) function body in execution-text order; inlined helpers keep one line number for
+    all their statements, so positions - not line numbers - say what comes before what."""
+    order = fi.__dict__.get('_c08_order')
+    if order is None:
+        order = fi.__dict__['_c08_order'] = {}
+
+        def rec(stmts):
+            for st in stmts:
+                order[id(st)] = len(order)
+                for nm in ('body', 'orelse', 'finalbody'):
+                    sub = getattr(st, nm, None)
+                    if isinstance(sub, list) and sub and isinstance(sub[0], ast.stmt):
+                        rec(sub)
+                for h in getattr(st, 'handlers', []) or []:
+                    rec(h.body)
+        rec(fi.node.body)
+    return order
+
+
+def _loop_bound(fi, loop, buf, others):
+    """Evaluate the condition under which an item loop continues, with the checker's own integers: the buffer held N octets when the
+    loop was entered and `c` of them have been consumed; every quantity that is not a length of the buffer stands for the declared
+    length L.  -> (truth per c, the locals that stand for L with the line of their assignment)."""
+    test, exempt = loop.test, None
+    if isinstance(test, ast.Constant) and test.value is True and loop.body and isinstance(loop.body[0], ast.If) and \
+            len(loop.body[0].body) == 1 and isinstance(loop.body[0].body[0], ast.Break) and not loop.body[0].orelse:
+        test, exempt = ast.UnaryOp(op=ast.Not(), operand=loop.body[0].test), loop.body[0].body[0]
+    inside = set(id(n) for n in ast.walk(loop))
+    assigns = [n for n in ast.walk(fi.node) if isinstance(n, ast.Assign) and len(n.targets) == 1 and isinstance(n.targets[0], ast.Name)]
+    lsyms = {}
+    order = _stmt_order(fi)
+
+    def ev(node, cur, N, L, line):
+        if isinstance(node, ast.Constant) and type(node.value) in (int, bool):
+            return node.value
+        if isinstance(node, ast.Call) and dotted(node.func) == 'len' and len(node.args) == 1:
+            if ast.unparse(node.args[0]) == buf:
+                return cur
+            return L
+        if ast.unparse(node) == buf:
+            return cur                    # the buffer in boolean position: non-empty
+        if isinstance(node, ast.Name):
+            if any(id(a) in inside and a.targets[0].id == node.id for a in assigns):
+                raise _NoEval('%s is carried by the loop' % node.id)
+            prev = [a for a in assigns if a.targets[0].id == node.id and order.get(id(a), -1) < line]
+            if not prev:
+                return L
+            a = max(prev, key=lambda x: order.get(id(x), -1))
+            if not any(isinstance(n, ast.Call) and dotted(n.func) == 'len' and n.args and ast.unparse(n.args[0]) == buf for n in ast.walk(a.value)):
+                lsyms[node.id] = order.get(id(a), -1)
+                return L
+            return ev(a.value, N, N, L, order.get(id(a), -1))
+        if isinstance(node, ast.Attribute):
+            return L
+        if isinstance(node, ast.BinOp) and isinstance(node.op, (ast.Add, ast.Sub)):
+            x, y = ev(node.left, cur, N, L, line), ev(node.right, cur, N, L, line)
+            return x + y if isinstance(node.op, ast.Add) else x - y
+        if isinstance(node, ast.Compare) and len(node.ops) == 1:
+            x, y = ev(node.left, cur, N, L, line), ev(node.comparators[0], cur, N, L, line)
+            op = type(node.ops[0])
+            tbl = {ast.Lt: x < y, ast.LtE: x <= y, ast.Gt: x > y, ast.GtE: x >= y, ast.Eq: x == y, ast.NotEq: x != y}
+            if op in tbl:
+                return tbl[op]
+        if isinstance(node, ast.UnaryOp) and isinstance(node.op, ast.Not):
+            return not ev(node.operand, cur, N, L, line)
+        if isinstance(node, ast.BoolOp):
+            vals = [ev(v, cur, N, L, line) for v in node.values]
+            return all(vals) if isinstance(node.op, ast.And) else any(vals)
+        if isinstance(node, (ast.Name, ast.Subscript)) or (isinstance(node, ast.Call) and not node.args):
+            return L
+        raise _NoEval(ast.unparse(node))
+
+    def table(N, L):
+        return [bool(ev(test, max(N - k, 0), N, L, order.get(id(loop), 10 ** 6))) for k in (0, 1, L - 1, L, L + 1)]
+    return table, lsyms, exempt
+
+
+def check_repetition(rep, prog, classes):
+    by_cls = {c: (pf, wf) for c, pf, wf in classes}
+    reads = {c: item_reads(prog, c, pf) for c, (pf, wf) in by_cls.items()}
+    fcls = {c: _field_classes(prog, c) for c in by_cls}
+    wrep = {c: _writer_repeats(prog, c, wf) for c, (pf, wf) in by_cls.items()}
+
+    def rmany(c, depth=0):
+        if depth > 4 or c not in reads:
+            return False
+        for kind, name, buf, node, loop in reads[c]:
+            if loop is not None:
+                return True
+            if kind == 'field' and fcls[c].get(name) is not None and rmany(fcls[c][name], depth + 1):
+                return True
+        return False
+
+    def wmany(c, depth=0):
+        if depth > 4 or c not in wrep:
+            return False
+        many, fields = wrep[c]
+        return many or any(fcls[c].get(f) is not None and wmany(fcls[c][f], depth + 1) for f in fields)
+    # a class every user of which loops over it is one item of that loop, not a sequence of its own
+    users = {}
+    for c in by_cls:
+        for kind, name, buf, node, loop in reads[c]:
+            if kind == 'field' and fcls[c].get(name) is not None:
+                users.setdefault(fcls[c][name], []).append(loop is not None)
+    n = 0
+    for c, (pf, wf) in by_cls.items():
+        if not wmany(c):
+            continue
+        if users.get(c) and all(users[c]):
+            continue
+        n += 1
+        own_loops = set(id(lp) for k, nm, b, nd, lp in reads[c] if lp is not None)
+        if wrep[c][0] and len(own_loops) < len(wrep[c][0]) and not any(k == 'field' and lp is not None for k, nm, b, nd, lp in reads[c]):
+            rep.violation('C08.c', '%s parse/__bytearray__' % c.name, 'the writer emits the elements of %d collection(s) item by item, the reader has %d item loop(s)' %
+                          (len(wrep[c][0]), len(own_loops)),
+                          'one of the item sequences the writer emits is read without a loop: at most its first item is taken, the rest stays in the buffer',
+                          where=pf.where, expected='one item loop per collection: %s' % sorted(wrep[c][0]),
+                          found=[(k, nm, 'in a loop' if lp is not None else 'once') for k, nm, b, nd, lp in reads[c]], scenario='repetition')
+            continue
+        rep.check(rmany(c), 'C08.c', '%s parse/__bytearray__' % c.name, 'the writer emits one item per element of a collection, the reader takes %s' %
+                  ('items in a loop' if rmany(c) else 'at most one item'),
+                  'the writer serialises every element of a collection but the reader does not loop until the declared length is used up: '
+                  'the items after the first stay in the buffer and are misread as what follows', where=pf.where,
+                  expected='a loop around the read of one item', found=[(k, nm, 'in a loop' if lp is not None else 'once') for k, nm, b, nd, lp in reads[c]],
+                  scenario='repetition')
+    if n < 3:
+        raise AnalysisError('repeated-item codecs: only %d classes whose writer emits a collection were recognised' % n)
+    # the loops themselves: they continue exactly while fewer octets than declared have been consumed, and nothing leaves them early
+    nb = 0
+    for c, (pf, wf) in by_cls.items():
+        if pf.cls is not c:
+            continue
+        loops = {}
+        for kind, name, buf, node, loop in reads[c]:
+            if loop is not None:
+                loops.setdefault(id(loop), (loop, buf))
+        inbuf = pf.params[1] if len(pf.params) > 1 else None
+        for loop, buf in sorted(loops.values(), key=lambda x: _stmt_order(pf).get(id(x[0]), 0)):
+            where = '%s:%d' % (pf.module.relpath, loop.lineno)
+            exempt = None
+            if isinstance(loop, ast.While):
+                try:
+                    table, lsyms, exempt = _loop_bound(pf, loop, buf, None)
+                    got = table(1000, 50)
+                    want = [True, True, True, False, False]
+                    ok = got == want or (buf != inbuf and table(50, 50) == want)
+                    order = _stmt_order(pf)
+                    stale = [nm for nm, ln in lsyms.items() if any(ln < order.get(id(other), -1) < order.get(id(loop), -1) for other, _ in loops.values() if other is not loop)]
+                    nb += 1
+                    rep.check(ok and not stale, 'C08.d', '%s.parse' % c.name,
+                              'item loop at line %d continues for consumed = 0, 1, L-1, L, L+1: %s%s' % (loop.lineno, got, ('; length %s was read for an earlier loop' % stale) if stale else ''),
+                              'a loop over self-delimiting items must continue exactly while fewer octets than the declared length have been consumed '
+                              '(not one header more or less, not until the whole input is empty, not by the length of another area)', where=where,
+                              expected='continue iff consumed < declared length', found=got if not stale else 'bounded by %s' % stale, scenario='loop bound')
+                except _NoEval:
+                    pass
+            early = []
+            stack = list(loop.body)
+            while stack:
+                st = stack.pop()
+                if st is exempt or isinstance(st, (ast.FunctionDef, ast.AsyncFunctionDef, ast.ClassDef)):
+                    continue
+                if isinstance(st, ast.Return) or (isinstance(st, ast.Break)):
+                    early.append(st)
+                    continue
+                for nm in ('body', 'orelse', 'finalbody'):
+                    sub = getattr(st, nm, None)
+                    if isinstance(sub, list):
+                        # a break inside a nested loop belongs to that loop; a return leaves ours as well
+                        stack.extend(x for x in sub if not isinstance(st, (ast.For, ast.While)) or any(isinstance(y, ast.Return) for y in ast.walk(x)))
+                for h in getattr(st, 'handlers', []) or []:
+                    stack.extend(h.body)
+            early = [e for e in early if isinstance(e, ast.Return) or _breaks_loop(loop, e)]
+            rep.check(not early, 'C08.d', '%s.parse' % c.name, 'item loop at line %d is left early at line %s' % (loop.lineno, [e.lineno for e in early]),
+                      'the reader stops taking items before the declared length is used up (for example at the first item it does not know): '
+                      'the rest of the area stays in the buffer', where=where, expected='the loop ends only through its length condition (or an exception)',
+                      found=[ast.unparse(e) for e in early], scenario='loop exit')
+    if nb < 3:
+        raise AnalysisError('repeated-item codecs: only %d item loops with a length condition the checker can evaluate' % nb)
+
+
+def _breaks_loop(loop, brk):
+    """Does this `break` leave `loop` (and not a loop nested inside it)?"""
+    def rec(stmts, owner):
+        for st in stmts:
+            if st is brk:
+                return owner is loop
+            if isinstance(st, (ast.FunctionDef, ast.AsyncFunctionDef, ast.ClassDef)):
+                continue
+            inner = st if isinstance(st, (ast.For, ast.While)) else owner
+            for nm in ('body', 'orelse', 'finalbody'):
+                sub = getattr(st, nm, None)
+                if isinstance(sub, list):
+                    r = rec(sub, inner if nm == 'body' else owner)
+                    if r is not None:
+                        return r
+            for h in getattr(st, 'handlers', []) or []:
+                r = rec(h.body, owner)
+                if r is not None:
+                    return r
+        return None
+    return bool(rec(loop.body, loop))
 
 
 def _dedupe(seq):
